@@ -314,7 +314,7 @@ func TestC06_SubsetsEnum(t *testing.T) {
 
 func TestC06_Errors(t *testing.T) {
 	c := harness.New(t, "C06", "errors",
-		"error classes of the statement, each embedded in an otherwise valid generated tree: an insert naming no reserve of the layout (block and expression form), two inserts with one name, a missing layout file, a layout that itself uses a layout (its @use first, last, or inside a branch or loop body, taken or not with the data of the call; naming another layout or itself), an insert into a used file that declares no reserve at all; loading must fail (or, for the recursive layout, loading or rendering). Non-trivial: all. Distinct by hash.")
+		"error classes of the statement, each embedded in an otherwise valid generated tree: an insert naming no reserve of the layout (block and expression form), two inserts with one name, a missing layout file (a name that exists nowhere, or only in another letter case, as a prefix or an extension of the real name), a layout that itself uses a layout (its @use first, last, or inside a branch or loop body, taken or not with the data of the call; naming another layout or itself), an insert into a used file that declares no reserve at all; loading must fail (or, for the recursive layout, loading or rendering). Non-trivial: all. Distinct by hash.")
 	defer c.Finish()
 	runRapid(t, c, 600, 7500, func(rt *rapid.T) {
 		env := genProgEnv().Draw(rt, "data")
@@ -342,7 +342,9 @@ func TestC06_Errors(t *testing.T) {
 		case "missing-layout":
 			for i, st := range files["home"] {
 				if st.Kind == tw.SUse {
-					files["home"][i] = &tw.Stmt{Kind: tw.SUse, Name: rapid.SampledFrom([]string{"~nosuch", "layouts/nosuch", "nosuch"}).Draw(rt, "missing")}
+					files["home"][i] = &tw.Stmt{Kind: tw.SUse, Name: rapid.SampledFrom([]string{"~nosuch", "layouts/nosuch", "nosuch",
+						// names that exist in another spelling only: other letter case, a prefix or an extension of the real name, the bare file name
+						"~Main", "~MAIN", "layouts/Main", "Layouts/main", "~mai", "~mainn", "~main.tw", "main", "~layouts/main"}).Draw(rt, "missing")}
 				}
 			}
 		case "layout-uses-layout":
